@@ -53,13 +53,14 @@ Verdict(e) ==
      ELSE IF e.split1.werr > 1000 \/ e.split2.werr > 1000 THEN R("SplitDef", "splitted_copy(weight precision)")
      ELSE IF OneSided(o0, o1) # {} THEN R("OneSidedException", JoinSet(OneSided(o0, o1)))
      ELSE IF OneSided(o1, o2) # {} THEN R("OneSidedException", JoinSet(OneSided(o1, o2)))
-     \* (the n.s.i. cross / internal measures are defined for undirected networks)
-     ELSE IF e.directed = 0 /\ BadGroup(e.obs0, e.obs1, e.pos1) \cup BadGroup(e.obs1, e.obs2, e.pos2) # {}
-          THEN R("NsiAgree", JoinSet(BadGroup(e.obs0, e.obs1, e.pos1) \cup BadGroup(e.obs1, e.obs2, e.pos2)))
-     ELSE LET b1 == BadNsi(o0, o1, e.v, Tol)  b2 == BadNsi(o1, o2, e.v2, Tol) IN
-          IF b1 # "" /\ b2 # "" THEN R("NsiAgree", b1 \o ";" \o b2)
-          ELSE IF b1 # "" \/ b2 # "" THEN R("NsiAgree", b1 \o b2)
-          ELSE <<"ACCEPT", "", "", Tags(e)>>
+     \* every failing site is named: the group-indexed measures (defined for undirected networks) AND the
+     \* single-network measures - a listed finding at one site must not hide a failure at another
+     ELSE LET bg == IF e.directed = 0 THEN BadGroup(e.obs0, e.obs1, e.pos1) \cup BadGroup(e.obs1, e.obs2, e.pos2) ELSE {}
+              b1 == BadNsi(o0, o1, e.v, Tol)  b2 == BadNsi(o1, o2, e.v2, Tol)
+              all == JoinSet(bg) \o (IF bg # {} /\ b1 # "" THEN ";" ELSE "") \o b1
+                     \o (IF (bg # {} \/ b1 # "") /\ b2 # "" THEN ";" ELSE "") \o b2
+          IN IF all # "" THEN R("NsiAgree", all)
+             ELSE <<"ACCEPT", "", "", Tags(e)>>
 
 Verdicts == TLCEval([k \in 1..Len(Trace) |-> Verdict(Trace[k])])
 Init == i = 1
